@@ -79,9 +79,10 @@ def run_case(ctx, kind, rng, idx):
     X, info = cc.gen_data(rng, nmax=13 if small else 60)
     n = len(X)
     mname = ['euclidean', 'manhattan', 'chebyshev'][int(rng.integers(0, 3))]
-    m = cc.metric_arg(mname)
+    m = cc.metric_arg(mname, rng)
     ref = cc.ref_metric(mname)
     tol = cc.tol_for(X)
+    U1 = cc.unit(X)        # tolerances in units of the data's magnitude
     D = np.stack([ref(X, X[i]) for i in range(n)], axis=1)
     diam = D.max()
     # stopping criteria
@@ -169,7 +170,7 @@ def run_case(ctx, kind, rng, idx):
         mx = dmin.max()
         ctx.count('greedy_steps_replayed')
         steps += 1
-        if dmin[c] < mx - tol * (1 + mx):
+        if dmin[c] < mx - tol * (U1 + mx):
             ctx.violation(
                 'kcenters.not-farthest',
                 'step %d chose frame %d at distance %.12g from the centers so '
@@ -178,10 +179,10 @@ def run_case(ctx, kind, rng, idx):
             return
         dmin = np.minimum(dmin, D[:, c])
         radii.append(float(dmin.max()))
-        if radii[-1] > radii[-2] + tol * (1 + radii[-2]):
+        if radii[-1] > radii[-2] + tol * (U1 + radii[-2]):
             ctx.violation('kcenters.radius-grew', 'radius history %s' % radii)
             return
-        if radii[-1] < radii[-2] - tol:
+        if radii[-1] < radii[-2] - tol * U1:
             strict = True
     # recorded history (the monitor's view) must match the returned result
     if init_idx is None:
@@ -191,17 +192,17 @@ def run_case(ctx, kind, rng, idx):
                           'iteration monitor saw centers %s, result has %s'
                           % (rec, ci))
         rr = [h[1] for h in hist]
-        if any(rr[i + 1] > rr[i] + tol * (1 + rr[i]) for i in range(len(rr) - 1)):
+        if any(rr[i + 1] > rr[i] + tol * (U1 + rr[i]) for i in range(len(rr) - 1)):
             ctx.violation('kcenters.radius-grew',
                           'recorded radius history %s' % rr)
     final_r = float(np.asarray(res.distances).max())
-    if abs(final_r - radii[-1]) > tol * (1 + radii[-1]):
+    if abs(final_r - radii[-1]) > tol * (U1 + radii[-1]):
         ctx.violation('kcenters.radius-wrong',
                       'reported radius %.12g, replayed %.12g' % (
                           final_r, radii[-1]))
     # --- stop rule, both ways --------------------------------------------
     ctx.count('stop_rules_checked')
-    stopped_ok = (K >= eff_n) or (radii[-1] <= eff_c + tol * (1 + eff_c))
+    stopped_ok = (K >= eff_n) or (radii[-1] <= eff_c + tol * (U1 + eff_c))
     if not stopped_ok:
         ctx.violation('kcenters.stopped-early',
                       'returned with K=%d < n_clusters=%s and radius %.6g > '
@@ -209,7 +210,7 @@ def run_case(ctx, kind, rng, idx):
     if K > n_init:
         # the last step must have been necessary
         prev_r = radii[-2]
-        if (K - 1 >= eff_n) or (prev_r <= eff_c - tol * (1 + eff_c)):
+        if (K - 1 >= eff_n) or (prev_r <= eff_c - tol * (U1 + eff_c)):
             ctx.violation('kcenters.stopped-late',
                           'took step %d although K-1=%d, n_clusters=%s, '
                           'radius before %.6g, cutoff %.6g' % (
@@ -220,7 +221,7 @@ def run_case(ctx, kind, rng, idx):
     if init_idx is None and n <= 13 and K <= 7:
         opt = opt_radius(D, K)
         ctx.count('exhaustive_optima')
-        if radii[-1] > 2 * opt + tol * (1 + opt):
+        if radii[-1] > 2 * opt + tol * (U1 + opt):
             ctx.violation('kcenters.not-2-approx',
                           'radius %.9g > 2 x optimal %.9g for K=%d' % (
                               radii[-1], opt, K))
@@ -236,7 +237,7 @@ def run_case(ctx, kind, rng, idx):
         d1 = np.asarray(res.distances)
         d2 = np.asarray(res2.distances)
         same_d = d1.shape == d2.shape and np.allclose(d1, d2, rtol=tol,
-                                                      atol=tol)
+                                                      atol=tol * U1)
         def valid_greedy(seq):
             # is `seq` a farthest-point sequence up to rounding-level ties?
             if init_idx is None:
@@ -247,7 +248,7 @@ def run_case(ctx, kind, rng, idx):
                 dm, start = D[:, init_idx].min(axis=1), len(init_idx)
             for c in seq[start:]:
                 mx = dm.max()
-                if dm[c] < mx - 1e-9 * (1 + mx):
+                if dm[c] < mx - 1e-9 * (U1 + mx):
                     return False
                 dm = np.minimum(dm, D[:, c])
             return True
@@ -270,7 +271,7 @@ def run_case(ctx, kind, rng, idx):
             a1 = np.asarray(res.assignments)[w]
             a2 = np.asarray(res2.assignments)[w]
             dd = np.abs(D[w, np.array(ci)[a1]] - D[w, np.array(ci)[a2]])
-            if np.all(dd <= tol * (1 + d1[w])):
+            if np.all(dd <= tol * (U1 + d1[w])):
                 ctx.count('ambiguous_label_ties')
             else:
                 ctx.violation('kcenters.shortcut-differs',
@@ -298,7 +299,7 @@ def run_foreign(ctx, rng, idx):
         X, info = cc.gen_data(rng, nmax=40, nmin=4, dtype=np.float64)
         mname = ['euclidean', 'manhattan', 'chebyshev'][int(rng.integers(0, 3))]
     n, d = X.shape
-    m = cc.metric_arg(mname)
+    m = cc.metric_arg(mname, rng)
     ref = cc.ref_metric(mname)
     tol = 1e-9
     scale = float(np.abs(X).max()) or 1.0
